@@ -22,6 +22,13 @@ def check(ctx):
     rc, err, events = lc.run_live(ctx, ["live-c06", 16 if thorough else 8, 300 if thorough else 150, tr3, "burst"])
     lc.crash_check(ctx, rc, err, "live-c06-burst")
     lc.trace_conn(ctx, lc.split_conns(events), "c06burst")
+    # ... and without any instrumentation (hooks and callback recording serialise the writers): request/reply pairs only
+    br = os.path.join(ctx.scratch, "c06_burst_pairs.ndjson")
+    r = ctx.vh(["live-c06burst", 32 if thorough else 16, 400 if thorough else 200, br], timeout=600)
+    lc.crash_check(ctx, r.returncode, r.stderr, "live-c06burst")
+    bev = vlib.read_nd(br, quoted=False)
+    from checks.c01 import trace_validate as tv
+    tv(ctx, "Trace_Burst", br, bev, "uninstrumented-burst-pairs-validated-by-Trace_Burst", lambda inv, e: inv)
     # numbering across the 16-bit wrap (sampled frames, light trace specification)
     from checks.c01 import trace_validate
     wr = os.path.join(ctx.scratch, "c06_serials.ndjson")
